@@ -615,3 +615,125 @@ func (c *Cluster) recordEmittedSignatures() {
 		}
 	}
 }
+
+/*******************************************************************************
+C13 fast-sync continuity
+*******************************************************************************/
+
+// noteGossipError: a fast-forwarded node that reports an insertion error for a
+// received event (parent below its frame) is "stalled": the statement only
+// promises continuity "for as long as it can insert the events it receives".
+func (c *Cluster) noteGossipError(a *SimNode, err error) {
+	if !a.ffDone || err == nil {
+		return
+	}
+	msg := err.Error()
+	for _, pat := range []string{"Other-parent not known", "not found", "Not Found", "Self-parent", "Too Late", "Skipped Index"} {
+		if containsStr(msg, pat) {
+			if !a.stalled {
+				c.stats.probe("ff-node-stalled")
+			}
+			a.stalled = true
+			return
+		}
+	}
+}
+
+func containsStr(s, sub string) bool {
+	return len(sub) <= len(s) && (func() bool {
+		for i := 0; i+len(sub) <= len(s); i++ {
+			if s[i:i+len(sub)] == sub {
+				return true
+			}
+		}
+		return false
+	})()
+}
+
+func (c *Cluster) checkC13() {
+	// validator-set history of reset nodes for rounds >= anchor equals the model
+	for _, n := range c.nodes {
+		if !n.running() || !n.ffDone {
+			continue
+		}
+		h := n.core().Hashgraph()
+		lb := h.SimRoundLowerBound()
+		if lb < 0 {
+			continue
+		}
+		maxR := h.Store.LastRound()
+		for _, r := range c.vs.rounds {
+			if r > maxR {
+				maxR = r
+			}
+		}
+		// only changes caused by blocks this node knows about can be reflected
+		lastIdx := n.node.GetLastBlockIndex()
+		known := newVSModel(c.vs.sets[0])
+		for i := 0; i <= lastIdx; i++ {
+			if b, ok := c.chainBody[i]; ok {
+				known.apply(b)
+			}
+		}
+		for r := lb; r <= maxR+7; r++ {
+			got, err := n.node.GetValidatorSet(r)
+			if err != nil {
+				continue
+			}
+			want := known.at(r)
+			if !sameList(pubKeysOf(got), want) {
+				c.violate("C13", "validator-history", "ff-validator-set-differs", "fast-forwarded node %d (anchor round %d, last block %d): validator set for round %d is %v, the committed blocks up to its last block give %v", n.idx, lb, lastIdx, r, shortList(pubKeysOf(got)), shortList(want))
+				return
+			}
+		}
+		c.stats.probe("c13-ff-history-checked")
+	}
+	// frames of the same round computed by different honest nodes are identical
+	type fh struct {
+		node int
+		hash string
+	}
+	seen := map[int]fh{}
+	for _, n := range c.nodes {
+		if !n.running() {
+			continue
+		}
+		h := n.core().Hashgraph()
+		if h.LastConsensusRound == nil {
+			continue
+		}
+		lo := 0
+		if n.ffDone {
+			lo = h.SimRoundLowerBound()
+		}
+		for r := lo; r <= *h.LastConsensusRound; r++ {
+			if n.frameChecked[r] {
+				continue
+			}
+			f, err := h.Store.GetFrame(r)
+			if err != nil {
+				continue
+			}
+			hash, err := f.Hash()
+			if err != nil {
+				continue
+			}
+			hs := fmt.Sprintf("%x", hash[:10])
+			if prev, ok := c.frameHashes[r]; ok {
+				if prev.hash != hs {
+					c.violate("C13", "frames-identical", "frame-hash-differs", "round %d: node %d computed frame hash %s, node %d computed %s", r, n.idx, hs, prev.node, prev.hash)
+					return
+				}
+			} else {
+				c.frameHashes[r] = frameRef{node: n.idx, hash: hs}
+			}
+			n.frameChecked[r] = true
+		}
+	}
+	_ = seen
+}
+
+type frameRef struct {
+	node int
+	hash string
+}
